@@ -211,6 +211,29 @@ def fanin_ports_case(args):
         sc.close()
 
 
+def stream_and_regular_case(args):
+    """a consumer that reads a streamed and a regular output of the same producer task (finding D23, recorded): the run hangs"""
+    seed, i = args
+    rng = random.Random(seed * 7951 + i)
+    sp = t3.Spec(maxtasks=4, bufsize=rng.choice([1, 128]))
+    sp.files["sr.dat"] = "payload\n"
+    s = sp.src("src", ["sr.dat"])
+    prod = sp.proc(t3.Proc("prod", kind="cat", ins=[("a", [(s, "out")])], outs=[("o", "{i:a}.s1"), ("o2", "{i:a}.r2")], stream_outs=["o"]))
+    sp.proc(t3.Proc("cons", kind="cat", ins=[("a", [(prod, "o")]), ("b", [(prod, "o2")])], outs=[("o", "{i:a|basename}.cons")]))
+    sc = t3.Scratch()
+    try:
+        sc.plant(sp.files)
+        impl = t3.run_impl(sc, sp, timeout=6)
+        known = ["stream-and-regular-output-into-one-consumer"] if (impl["timed_out"] or "all goroutines are asleep" in impl["stderr"]) else []
+        problems = []
+        if not known and (impl["rc"] != 0 or not impl["returned"]):
+            problems.append(("unexpected-failure", "exit %s: %s" % (impl["rc"], impl["stderr"][-200:])))
+        return {"spec": sp.text(), "bufsize": sp.bufsize, "problems": problems, "known": known, "ntasks": 2, "nskip": 0, "rc": impl["rc"], "stderr": impl["stderr"][-300:],
+                "yield": None, "wall": impl["wall"]}
+    finally:
+        sc.close()
+
+
 def run(rep, tier, seed):
     proved = vlib.prove(rep, MODULE, THEOREMS)
     ok, msg = vlib.build_ocaml()
@@ -243,6 +266,13 @@ def run(rep, tier, seed):
                 r["problems"].append(("deadlock-or-hang", "fan-in into the three in-ports of one process deadlocks with SCIPIPE_BUFSIZE=%d" % r["bufsize"]))
     rep.notes["fanin_small_buffer_deadlocks_seen"] = "%d of %d runs with SCIPIPE_BUFSIZE=1" % (nd21, sum(1 for r in fan if r["bufsize"] == 1))
     results += fan
+    for r in t3.run_many(stream_and_regular_case, [(seed, i) for i in range(2)]):
+        if r.get("known"):
+            if any(f["kind"] == "stream-and-regular-output-into-one-consumer" for f in kf):
+                rep.known_finding("a consumer that takes a streamed and a regular output of the same upstream task never starts and Run never returns (the regular output is forwarded only after the task that must first be read from has finished)")
+            else:
+                r["problems"].append(("deadlock-or-hang", "a consumer of a streamed and a regular output of one producer task hangs"))
+        results.append(r)
     t3.report_t3(rep, MODULE, proved, results, "T3 termination / at-return snapshot")
     rep.cov["evaluations"] = len(results)
     rep.cov["distinct_nontrivial"] = len({r["spec"] for r in results if r["ntasks"] >= 1})
